@@ -96,8 +96,10 @@ def _parse_pdb_atom_line(line, lit):
 
     # Get element symbol from position 77:78 in pdb format
     symbol = line[76:78].strip()
+    atname = line[12:16].strip()
     if len(symbol) > 0:
-        atnum = sym2num.get(symbol)
+        # Element symbols are written in upper case in PDB files.
+        atnum = sym2num.get(symbol.title())
     else:
         # If not present, guess it from position 13:16 (atom name)
         atname = line[12:16].strip()
